@@ -174,7 +174,8 @@ err_t bign96Start(void* state, const bign_params* params)
 	// создать поле и выполнить минимальные проверки p
 	f = (qr_o*)((octet*)state + ec_keep);
 	stack = (octet*)f + f_keep;
-	if (!gfpCreate(f, params->p, 24, stack) ||
+	if (params->p[23] == 0 ||
+		!gfpCreate(f, params->p, 24, stack) ||
 		wwBitSize(f->mod, n) != 192 ||
 		wwGetBits(f->mod, 0, 2) != 3)
 		return ERR_BAD_PARAMS;
